@@ -23,9 +23,13 @@ type leaf struct {
 }
 
 var (
-	lfA    = leaf{src: "a", kind: "atom", lit: nSym("a")}
-	lf1    = leaf{src: "1", kind: "atom", lit: nInt(1)}
-	lfS    = leaf{src: `"s"`, kind: "atom", lit: nStr("s")}
+	lfA = leaf{src: "a", kind: "atom", lit: nSym("a")}
+	lf1 = leaf{src: "1", kind: "atom", lit: nInt(1)}
+	lfS = leaf{src: `"s"`, kind: "atom", lit: nStr("s")}
+	// data that merely LOOKS like the head of an unquote form: a string spelled like the operator is a string
+	lfStrU = leaf{src: `"unquote"`, kind: "atom", lit: nStr("unquote")}
+	lfStrS = leaf{src: `"unquote-splicing"`, kind: "atom", lit: nStr("unquote-splicing")}
+	lfStrQ = leaf{src: `"quasiquote"`, kind: "atom", lit: nStr("quasiquote")}
 	lfNil  = leaf{src: "()", kind: "atom", lit: nList()}
 	lfU3   = leaf{src: "(unquote (+ 1 2))", kind: "unquote", val: nInt(3)}
 	lfUx   = leaf{src: "(unquote 'x)", kind: "unquote", val: nSym("x").quoted(1)}
@@ -220,6 +224,9 @@ func grammars(thorough bool) []*grammar {
 		// the illegal / unspecified contexts: quoted splice forms, non-list splices, at every depth
 		{name: "B4-illegal", leaves: []*leaf{&lfA, &lfU3, &lfS1, &lfSbad, &lfSxy}, qLeaf: 2, quoteSplices: true, qList: 1, width: 2, depth: 3},
 	}
+	// look-alike heads: every list shape whose elements (the head included) may be the STRINGS "unquote",
+	// "unquote-splicing", "quasiquote" next to real unquote / splice forms
+	gs = append(gs, &grammar{name: "B5-lookalike-heads", leaves: []*leaf{&lfStrU, &lfStrS, &lfStrQ, &lfA, &lfU3, &lfS2}, qLeaf: 2, qList: 2, width: 2, depth: 3})
 	if !thorough {
 		gs = append(gs,
 			// deep: splice at every position of every list of every depth
